@@ -207,7 +207,8 @@ def check_writer(ctx, m, fn: ast.FunctionDef, label: str, informational: bool = 
             call_name(c) in ("os.open", "shutil.copyfile", "shutil.copy", "shutil.copy2") and any(source.src(a_) == srcs for a_ in c.args)
             for c in source.calls_in(fn, include_nested=True)) or any(
             last_attr(c) in ("write_text", "write_bytes") and isinstance(c.func, ast.Attribute) and srcs in source.src(c.func.value)
-            for c in source.calls_in(fn, include_nested=True))
+            for c in source.calls_in(fn, include_nested=True)) or any(
+            (call_name(c) or "").startswith("tempfile.") for c in source.calls_in(fn, include_nested=True))
         inplace = any(oc.args and any(source.src(oc.args[0]) == source.src(r2.args[1]) for (_, r2) in rens) for (_, oc) in opens)
         ctx.require(produced or inplace, "C14: %s renames %s but no recognised producer (open for writing, os.open, copy, write_text) of that path is in "
                               "the function - the write discipline of this file cannot be decided" % (source.qualname(fn), srcs))
